@@ -110,6 +110,9 @@ def unit_copies(twin=False):
         ok = itn is tm.app("miter", (Mv, j), "P")
         r.add("iteration.iterator_moves_to_the_new_copy(it==find(j))", DISCHARGED if ok else FAILED, "term-inspection", 0, repr(itn)[:100])
         U.discharge_valid(r, "iteration.j_in_(n_user,n_user_end]", list(s.pc), tm.le(j, tm.sym("L_n_user_end", "I")))
+    from props.common import check_loop_range
+    nu, ne = tm.sym("L_n_user", "I"), tm.sym("L_n_user_end", "I")
+    check_loop_range(r, "copies", ex, ctx, info, iters, "j", nu + tm.num(1, "I") if not twin else nu, lambda v: tm.le(v, ne))
     r.add("reach.iteration", DISCHARGED if n == 1 else UNDECIDED, "symex", 0, "%d" % n, kind="vacuity")
     # before the loop: nothing happens when n_user_end <= n_user or the source is absent
     ctx2 = mkctx(); ctx2.loop = lambda ex_, st, node, o: [st]
